@@ -1314,6 +1314,9 @@ func admit(id string, e *enc) bool {
 	}
 	c.Count("valid_decodes_"+imShort[imExact], 1)
 	modeVerdicts(id, d, &rs, "valid-encoding", fmt.Sprintf("decoding a valid %d-byte encoding", len(e.B)), len(e.B), len(e.B), "valid", detail)
+	if dbg {
+		fmt.Fprintf(os.Stderr, "DBG admit %s len=%d alloc=%d bound=%d\n", id, len(e.B), rs.m.Alloc, allocSlope*len(e.B)+allocConst)
+	}
 	if bound := uint64(allocSlope*len(e.B) + allocConst); rs.m.Alloc > bound {
 		c.Count("alloc_bound_exceeded", 1)
 		fail(d.Name+":alloc-from-count@valid-encoding", fmt.Sprintf("decoding a valid %d-byte encoding allocated %d bytes (bound 64·len+1 MiB = %d)", len(e.B), rs.m.Alloc, bound),
@@ -1348,8 +1351,14 @@ func main() {
 	}
 	c = vlib.Start("C04")
 	n := c.N(2000, 40000)
-	c.Cases("enc", n, func(i int, r *vlib.Rand) {
+	// behind the n regular encodings: nBig encodings of the big/* families (one blob or text
+	// above 65535 bytes each)
+	nBig := n * 9 / 250
+	c.Cases("enc", n+nBig, func(i int, r *vlib.Rand) {
 		f := families[i%len(families)]
+		if i >= n {
+			f = bigFamilies[(i-n)%len(bigFamilies)]
+		}
 		var e *enc
 		for try := 0; try < 6; try++ {
 			altForm = false
